@@ -196,6 +196,16 @@ _STEP_LOCALS = {"self._locals.update({str(sym): y[i] for i, sym in enumerate(sel
                 "y = [self._locals[str(sym)] for sym in self.all_variable_symbols]": [("y", "(allSyms.map (fun sym => Glue.get locals_ sym))")]}
 
 
+def _mixed_init_slice(body):
+    """MixedIntegrator.__init__: the handling of `parameters`, of the analytic solver dictionary's parameters and of the list of all variable symbols"""
+    keep = ("if parameters is None:", "self._parameters = {k:", "self._locals = self._parameters.copy()", "self.analytic_solver_dict = analytic_solver_dict",
+            "if not self.analytic_solver_dict is None:", "self.all_variable_symbols =")
+    out = [st for st in body if ast.unparse(st).startswith(keep)]
+    if len(out) != 8:
+        raise ValueError("parameter / symbol handling of MixedIntegrator.__init__ not found (%d statements)" % len(out))
+    return out
+
+
 GROUPS = {
     # ---------------------------------------------------------------------------------- C15
     "PySpikes": {
@@ -735,6 +745,52 @@ GROUPS = {
                     "Python sets are duplicate-free lists (`Glue.setUnion`, filters); the iteration order over the set of parameter symbols is the arbitrary "
                     "re-ordering `perm`; `parameters` is `None` or a dictionary (association list) whose values are `None` or given; "
                     "`sympy.Symbol(Config().input_time_symbol)` is the name `timeSymbol`")),
+        ],
+    },
+    "PyIntegratorInit": {
+        "imports": ["OdeVerif.Model.PyPrelude", "OdeVerif.Model.Glue"],
+        "file": None,
+        "functions": [
+            (("odetoolbox/mixed_integrator.py", "MixedIntegrator", "__init__"), Spec(
+                name="mixedInit", header="{α V : Type}",
+                params=[("ev", "V → α"), ("respell", "String → String"), ("xs", "List String"), ("parameters", "Option (List (String × V))"),
+                        ("analytic_solver_dict", "Option (Glue.AnaDict α)")],
+                types={"P": "List (String × α)", "locals_": "List (String × α)", "asd": "Option (Glue.AnaDict α)", "allSyms": "List String", "Praw": "List (String × V)"},
+                predeclare=[("Praw", "[]"), ("P", "[]"), ("locals_", "[]"), ("asd", "none"), ("allSyms", "[]")],
+                expr_map={"parameters is None": "(parameters.isNone = true)", "not self.analytic_solver_dict is None": "(asd.isSome = true)",
+                          "not 'parameters' in self.analytic_solver_dict.keys()": "(Glue.AnaDict.lacksParams asd = true)"},
+                stmt_map={"self._parameters = {}": [("Praw", "[]")], "self._parameters = parameters": [("Praw", "(parameters.getD [])")],
+                          "self._parameters = {k: sympy.parsing.sympy_parser.parse_expr(v, global_dict=Shape._sympy_globals).n() if not _is_sympy_type(v) else v for k, v in self._parameters.items()}":
+                              [("P", "(Praw.map (fun kv => (kv.1, ev kv.2)))")],
+                          "self._locals = self._parameters.copy()": [("locals_", "P")],
+                          "self.analytic_solver_dict = analytic_solver_dict": [("asd", "analytic_solver_dict")],
+                          "self.analytic_solver_dict['parameters'] = {}": [("asd", "(Glue.AnaDict.setParams asd [])")],
+                          "self.analytic_solver_dict['parameters'].update(self._parameters)": [("asd", "(Glue.AnaDict.setParams asd (Glue.updateAll (Glue.AnaDict.paramsOf asd) P))")],
+                          "self.all_variable_symbols = list(self._system_of_shapes.x_)": [("allSyms", "xs")],
+                          "self.all_variable_symbols += self.analytic_solver_dict['state_variables']": [("allSyms", "(allSyms ++ Glue.AnaDict.stateVarsOf asd)")],
+                          "self.all_variable_symbols = [sympy.Symbol(str(sym).replace(\"'\", Config().differential_order_symbol)) for sym in self.all_variable_symbols]":
+                              [("allSyms", "(allSyms.map respell)")]},
+                body_filter=_mixed_init_slice, end_return="(P, locals_, asd, allSyms)", result_type="List (String × α) × List (String × α) × Option (Glue.AnaDict α) × List String",
+                doc="the handling of `parameters`, of the `parameters` entry of the analytic solver dictionary (which the constructor mutates) and of `all_variable_symbols` "
+                    "only. Parameter values are evaluated by `ev` (`parse_expr(v).n()`, or `v` itself when it already is a SymPy object: contract); what is read of the analytic "
+                    "solver dictionary is a `Glue.AnaDict` (is there a `parameters` entry, its content, the `state_variables`); re-spelling `'` as the marker is `respell`")),
+            (("odetoolbox/analytic_integrator.py", "AnalyticIntegrator", "set_initial_values"), Spec(
+                name="setInitialValues", header="{α V : Type}",
+                params=[("ev", "V → List (String × α) → Option α"), ("hasParameters", "Bool"), ("params", "List (String × α)"), ("initial_values", "List (String × α)"),
+                        ("vals", "List (String × V)")],
+                types={"k": "String", "v": "V", "expr": "V", "subs_dict": "List (String × α)", "param_symbol": "String", "param_val": "α",
+                       "for:vals.items()": "(String × V)", "for:self.solver_dict['parameters'].items()": "(String × α)"},
+                expr_map={"vals.items()": "vals", "self.solver_dict['parameters'].items()": "params", "'parameters' in self.solver_dict.keys()": "(hasParameters = true)",
+                          "k in self.initial_values.keys()": "((initial_values.lookup k).isSome = true)", "{}": "[]"},
+                index_set={"subs_dict": ("subs_dict", "(Glue.assoc {old} {k} {v})")},
+                stmt_map={"k = str(k)": [], "expr = sympy.parsing.sympy_parser.parse_expr(str(v), global_dict=Shape._sympy_globals)": [("expr", "v")],
+                          "self.reset()": []},
+                bind_map={"self.initial_values[k] = float(expr.evalf(subs=subs_dict))": ("initial_values", "(Glue.evalInto initial_values k (ev expr subs_dict))")},
+                skip_prefixes=["msg = "], try_handlers=True,
+                raise_map={"Exception(msg)": "Glue.IvErr.notNumeric"}, asserts="except", assert_error="Glue.IvErr.unknownKey", error_type="Glue.IvErr",
+                end_return="initial_values", result_type="List (String × α)",
+                doc="`self.initial_values` is an association list; `float(expr.evalf(subs=...))` is the parameter `ev` (`none` = TypeError, symbols left over); the "
+                    "result is the new `initial_values` (`self.reset()` then copies it into the state: `Glue.resetState`), or which of the two errors")),
         ],
     },
     # ---------------------------------------------------------------------------------- C14
